@@ -17,7 +17,8 @@ import gc
 import weakref
 
 import eqlmc  # noqa: F401
-from entity_query_language import an, the, infer, entity, set_of, let, symbolic_mode, rule_mode, predicate
+from entity_query_language import (an, the, infer, entity, set_of, let, symbolic_mode, rule_mode, predicate,
+                                   MultipleSolutionFound, NoSolutionFound)
 from entity_query_language.symbolic import in_symbolic_mode, SymbolicExpression
 from entity_query_language.enums import EQLMode
 
@@ -114,6 +115,15 @@ def cases(tier, inst):
             yield ("@nested",) + h
 
 
+    # the same histories over evaluations that RAISE: q1's condition is user code that raises at its j-th call (the
+    # exception comes out of next()), q2 is a the(...) with several / with no solutions (evaluate() raises at once); the
+    # caller handles the exception where it is and carries on - inside whatever blocks are open
+    for variant in ("@raising2", "@raising1"):
+        for h in histories(initial(), enabled, step, d - 1):
+            if h and any(op in ("N1", "E1", "C2") for op in h) and any(op in ENTER for op in h):
+                yield (variant,) + h
+
+
 NESTED = {}
 
 
@@ -179,11 +189,13 @@ def expected_obs(blocks):
 
 def run_case(hist, inst):
     nested = hist[0] == "@nested"
+    raising = hist[0] if hist[0].startswith("@raising") else None
     full_case = hist
-    if nested:
+    if nested or raising:
         hist = hist[1:]
 
     def body():
+        W.LOG.reset()
         das = [W.Item(p=1, tag="a0"), W.Item(p=2, tag="a1"), W.Item(p=3, tag="a2")]
         dbs = [W.Item(p=1, tag="b0"), W.Item(p=3, tag="b1")]
         with symbolic_mode():
@@ -196,6 +208,10 @@ def run_case(hist, inst):
                 x1 = let(W.Item, q0.evaluate())           # a result iterator is a legitimate (lazy) domain
                 q1 = an(entity(x1, x1.p >= 1))
                 q2 = an(entity(y, has_not_smaller(y)))
+            elif raising:
+                q1 = an(entity(x, x.is_p(2) | (x.p >= 1)))
+                q2 = the(entity(y, y.p >= (1 if raising == "@raising2" else 7)))
+                W.LOG.raise_at = ("is_p", 2 if raising == "@raising2" else 1)
             else:
                 q1 = an(entity(x, x.p >= 1))
                 q2 = an(set_of([x, y], x.p <= y.p))
@@ -231,7 +247,15 @@ def run_case(hist, inst):
                         break
                 else:
                     k = int(op[1])
-                    if op[0] == "C":
+                    if op[0] == "C" and raising and k == 2:
+                        try:
+                            queries[k].evaluate()
+                            bad = ("the-did-not-raise", i, op, "returned", "MultipleSolutionFound / NoSolutionFound")
+                            break
+                        except (MultipleSolutionFound, NoSolutionFound):
+                            iter_raised.append(op)
+                        its[k] = (_ for _ in ())      # the(...) hands out no iterator: the later steps on it are no-ops
+                    elif op[0] == "C":
                         its[k] = queries[k].evaluate()
                     elif op[0] == "N":
                         try:
@@ -278,13 +302,14 @@ def run_case(hist, inst):
                 cms.pop().__exit__(None, None, None)
             except Exception:
                 pass
+        W.LOG.reset()
         return bad, trans, fps, len(iter_raised)
 
     bad, trans, fps, nraised = run_isolated(body)
     has_block = any(op in ENTER for op in hist)
     has_iter = any(op[0] in "CNLDE" and op not in ENTER and op not in ("X", "XE") for op in hist)
     res = {"ok": bad is None, "nontrivial": has_block and has_iter, "transitions": trans, "fps": fps,
-           "tags": [f"len={len(hist)}"] + (["nested_evaluations"] if nested else []) + (["evaluation_raised_inside_iterator_step"] if nraised else []) + [f"op={op[0] if op not in ENTER and op not in ('X', 'XE') else op}" for op in set(hist)],
+           "tags": [f"len={len(hist)}"] + (["nested_evaluations"] if nested else []) + (["raising_evaluations"] if raising else []) + (["evaluation_raised_inside_iterator_step"] if nraised else []) + [f"op={op[0] if op not in ENTER and op not in ('X', 'XE') else op}" for op in set(hist)],
            "outcome": None}
     if bad is not None:
         kind, i, op, got, exp = bad
@@ -294,7 +319,7 @@ def run_case(hist, inst):
         for o in hist[:i]:
             s = step(s, o)
         inside = "inside" if s[0] else "outside"
-        res.update(sig=f"{kind}:{op}/{inside}" + ("/nested" if nested else ""),
+        res.update(sig=f"{kind}:{op}/{inside}" + ("/nested" if nested else "") + ("/raising" if raising else ""),
                    obs=(f"after step {i + 1} of {list(hist)}", got), exp=exp)
     return res
 
@@ -306,6 +331,16 @@ LEGEND = ("SM=enter symbolic_mode()  RM=enter rule_mode()  SMq=enter symbolic_mo
 
 
 def describe(hist, inst):
+    if hist[0].startswith("@raising"):
+        two = hist[0] == "@raising2"
+        return ("das = [Item(p=1), Item(p=2), Item(p=3)]; dbs = [Item(p=1), Item(p=3)]\n"
+                f"# Item.is_p raises at its {'second' if two else 'first'} call\n"
+                "with symbolic_mode(): x = let(Item, das); y = let(Item, dbs); q1 = an(entity(x, x.is_p(2) | (x.p >= 1))); "
+                f"q2 = the(entity(y, y.p >= {1 if two else 7})); z = let(Item, das); q3 = an(entity(z, z.p > 1))\n"
+                f"history: {' ; '.join(hist[1:])}\n# {LEGEND}\n"
+                "# C2 = try: q2.evaluate() except (MultipleSolutionFound, NoSolutionFound): pass; an exception out of next(it1) is "
+                "caught where it is raised\n"
+                "# expected after every step: mode == mode of the innermost mode-setting open block (else none)")
     if hist[0] == "@nested":
         return ("das = [Item(p=1), Item(p=2), Item(p=3)]; dbs = [Item(p=1), Item(p=3)]\n"
                 "@predicate\ndef has_not_smaller(item):\n"
